@@ -208,6 +208,18 @@ for _kind, _entry in (("getopt", "h_getopt_path"), ("getsec", "h_getsec_path")):
 U("getopt_array_leaf", entry="h_getopt_array_leaf", func="cfg_getopt_array (nested-call contract)", defs={"quick": ["-DPATHN=3", "-DCFGV_FIXED_DUP=8"]}, cbmc=unw(5) + NOOOM,
   label="bounded(name <= 3 bytes)", props=["C14", "C11", "C02"], term_props=["C11", "C02"], cost=20, **RES)
 
+# ------------------------------------------------------------------ file names (C17)
+PTH = dict(harness="harness/paths.c")
+PTRUST = ["stat, getpwuid, getpwnam, geteuid, snprintf(%s/%s): assumed contracts with ghost verdicts (harness/paths.c)"]
+U("make_fullpath", entry="h_make_fullpath", func="cfg_make_fullpath", defs={"quick": ["-DNAMEN=3", "-DCFGV_FIXED_DUP=8"]}, cbmc=unw(8) + OOM + LEAK,
+  label="bounded(directory <= 2 bytes, name <= 3 bytes; allocation may fail)", props=["C17", "C18", "C02"], cost=20, trusted=PTRUST, **PTH)
+U("searchpath", entry="h_searchpath", func="cfg_searchpath (recursion by contract on the extracted copy), cfg_make_fullpath", defs={"quick": ["-DNAMEN=3", "-DCFGV_FIXED_DUP=8"]}, cbmc=unw(8) + NOOOM + LEAK,
+  label="bounded(name <= 3 bytes, directory 1 byte; list of any length through the nested-call contract; every stat verdict)", props=["C17", "C13", "C07", "C02"], cost=30, trusted=PTRUST, **PTH)
+U("tilde_expand", entry="h_tilde_expand", func="cfg_tilde_expand", defs={"quick": ["-DNAMEN=4", "-DCFGV_FIXED_DUP=8"], "thorough": ["-DNAMEN=6", "-DCFGV_FIXED_DUP=10"]}, cbmc={"quick": unw(8) + OOM, "thorough": unw(10) + OOM},
+  nondet_static=r".*confuse\.c:.*", label="bounded(name <= 4 bytes quick / 6 thorough over all bytes; home directory 1 byte; statics of confuse.c arbitrary)", props=["C17", "C18", "C08", "C02"], cost=40, trusted=PTRUST, **PTH)
+U("add_searchpath", entry="h_add_searchpath", func="cfg_add_searchpath", defs={"quick": ["-DNAMEN=2", "-DCFGV_FIXED_DUP=8"]}, cbmc=unw(8) + OOM + LEAK,
+  label="bounded(directory <= 2 bytes; allocation may fail)", props=["C17", "C18", "C16", "C07", "C02"], cost=20, trusted=PTRUST, **PTH)
+
 # ------------------------------------------------------------------ per-property text for MANIFEST / evidence
 HOOK_COMMITS = ["b37b503"]
 NOT_APPLICABLE = {}
